@@ -77,8 +77,32 @@ def _snapshot(code):
     return snap
 
 
+_patched = False
+
+
+def lift_child_timeout():
+    """The 1 s limit of the constexpr child process is a timing matter (C10, not claimed); under CPU
+    load it makes compilations fail at random.  The harness lifts it to 60 s for every check by
+    wrapping subprocess.Popen.communicate in its own process (the repository is not changed)."""
+    global _patched
+    if _patched:
+        return
+    import subprocess
+
+    real = subprocess.Popen.communicate
+
+    def communicate(self, input=None, timeout=None):
+        if timeout is not None and timeout <= 1:
+            timeout = 60
+        return real(self, input=input, timeout=timeout)
+
+    subprocess.Popen.communicate = communicate
+    _patched = True
+
+
 def compile_capture(src, **opts) -> Captured:
     """src: str or {module: str}; opts: CompileOptions fields."""
+    lift_child_timeout()
     from stationeers_pytrapic import generate_code as gc
     from stationeers_pytrapic.compile_pass import CompileOptions
     from stationeers_pytrapic.compiler import compile_code
